@@ -175,7 +175,6 @@ func NewWorld(t *testing.T, cfg WorldCfg) *World {
 		CapFrames:              cfg.CapFrames,
 		CapBytes:               cfg.CapBytes,
 		Latency:                cfg.Latency,
-		Gated:                  cfg.Gated,
 		StripNegotiateRequest:  cfg.StripReq,
 		StripNegotiateResponse: cfg.StripResp,
 		Decorate: func(ctx context.Context, l *Link) context.Context {
